@@ -21,7 +21,22 @@ fn gen_order_program(ch: &mut Ch) -> String {
         let names: Vec<String> = (0..k).map(|i| format!("{}{g}_{i}", ["y", "zed", "w", "é"][i % 4])).collect();
         let head = format!("x{g}");
         let uses = names.join([" + ", " * ", " - "][ch.pick(3)]);
-        s.push_str(&format!("{head} = {uses}{}", if ch.chance(1, 2) { "; " } else { "\n" }));
+        let sep = if ch.chance(1, 2) { "; " } else { "\n" };
+        match ch.pick(3) {
+            // Direct: the definition itself mentions the later definitions.
+            0 => s.push_str(&format!("{head} = {uses}{sep}")),
+            // Indirect: it calls a function (a value) whose body mentions them.
+            1 => s.push_str(&format!("{head} = fn{g} 1{sep}fn{g} = (arg{g} : int) => arg{g} + {uses}{sep}")),
+            // Two levels of functions, the later definitions split between them.
+            _ => {
+                let (l, r) = names.split_at(names.len() / 2);
+                s.push_str(&format!(
+                    "{head} = fn{g} 1{sep}fn{g} = (arg{g} : int) => gn{g} arg{g} + {}{sep}gn{g} = (brg{g} : int) => brg{g} + {}{sep}",
+                    if l.is_empty() { "0".to_owned() } else { l.join(" + ") },
+                    r.join(" + ")
+                ));
+            }
+        }
         for n in &names {
             s.push_str(&format!("{n} = 1 + {}{}", ch.pick(9), if ch.chance(1, 2) { "; " } else { "\n" }));
         }
@@ -228,7 +243,7 @@ pub fn def(tier: Tier) -> CheckDef {
     CheckDef {
         id: "C13",
         level: "exploration",
-        rule: "proptest-generated files: programs whose first definition mentions 2-6 later non-value definitions (1-3 such groups), several unbound names / re-bindings, 2-6 independent type errors, several unexpected symbols, mixtures, random ill-typed programs, accepted programs, syntax near-misses, invalid UTF-8 and the empty file; each file is run 6 (quick) / 12 (thorough) times per sub-command (`check`, `run`) as separate processes (fresh hash seeds) and (exit status, stdout, stderr) must be byte-identical; in-process companion: parse() called 10 times on the same tokens must return the same diagnostics in the same order; non-trivial = the output has >= 2 diagnostics; distinct by file content",
+        rule: "proptest-generated files: programs whose first definition mentions 2-6 later non-value definitions, directly or through one or two functions defined after it (1-3 such groups), several unbound names / re-bindings, 2-6 independent type errors, several unexpected symbols, mixtures, random ill-typed programs, accepted programs, syntax near-misses, invalid UTF-8 and the empty file; each file is run 6 (quick) / 12 (thorough) times per sub-command (`check`, `run`) as separate processes (fresh hash seeds) and (exit status, stdout, stderr) must be byte-identical; in-process companion: parse() called 10 times on the same tokens must return the same diagnostics in the same order; non-trivial = the output has >= 2 diagnostics; distinct by file content",
         assumptions: vec![
             "a permutation of k diagnostics escapes one file with probability at most (1/k!)^(launches-1); hundreds of such files are generated per run",
         ],
